@@ -144,6 +144,29 @@ Proof.
   - destruct (Hlm st n limit Hl) as [Hinn _]. now rewrite <- (Hlin n q Hinn Hq).
 Qed.
 
+(** the offset that [act_direct] installs for a region found through the page
+    tables ([-first]) is the offset the page tables give: there is an address [n]
+    ([first] itself for the fixed locations, the lowest mapped address from
+    [first] on otherwise) that the page tables send to [n - first].  In
+    particular a direct map whose first mapped page is not physical frame 0 is
+    not taken for a region starting at that page. *)
+Theorem directmap_offset_is_pgt s first last :
+  linux_directmap_by_pgt img hl_fuel s = (OK, (first, last)) ->
+  first < 2^64 ->
+  (vtop_pgt img s first = (OK, 0) -> T s first = (OK, 0)) ->
+  exists n p, T s n = (OK, p) /\ wsub p n = wsub 0 first /\
+              (n < 2^64 -> p < 2^64 -> lin (neg_u64 first) n = p).
+Proof.
+  intros H Hf Hvt.
+  destruct (directmap_by_pgt_witness s first last H) as [[_ H0]|[[_ H0]|(st & n & q & limit & Hl & Hq & Hoff)]].
+  - exists first, 0. split; [auto|]. split; [reflexivity|].
+    intros _ _. apply lin_of_offset; try lia.
+  - exists first, 0. split; [auto|]. split; [reflexivity|].
+    intros _ _. apply lin_of_offset; try lia.
+  - exists n, q. split; [exact Hq|]. split; [exact Hoff|].
+    intros Hn Hq64. now apply lin_of_offset.
+Qed.
+
 (** [linux_directmap] installs the region: afterwards MAP_KV_PHYS sends exactly
     [first, last] (on top of what it sent before) to the direct method, which is
     linear with offset [-first], and MAP_KPHYS_DIRECT sends [0, last - first]
